@@ -363,8 +363,10 @@ def check_slot_capacity(ck, prog, rule):
                     nxt_ok = mentions(d[2][0], g.prov, lambda z: z[0] == "call" and (z[1] or "").endswith("u32>::wrapping_add") and mentions(z[2][0], g.prov, lambda w: w[0] == "field" and w[2] == "tail") and fold(z[2][1]) == 1)
                     head_ok = all_defs(d[2][1], g.prov, lambda z: isinstance(z, tuple) and z[0] == "call" and (z[1] or "").endswith(("acquire_khead", "get_khead_relaxed")))
                     le = (f[1] == "Le" and strip_casts(f[2]) is d) or (f[1] == "Ge" and strip_casts(f[3]) is d)
-                    cap = nxt_ok and head_ok and le
-        ck.ob(rule, "slot-only-when-space", cap, fn=g.path, detail="a slot may be handed out only under (tail + 1) - kernel_head <= ring_entries, computed with wrapping arithmetic, where kernel_head is on every path the head word the KERNEL publishes (a private copy of what was flushed says nothing about what the kernel has consumed)")
+                    # the bound is the SUBMISSION ring's size (the completion ring is twice as large by default: slots still waiting for the kernel would be handed out again)
+                    own = all(mentions(x, g.prov, lambda z: z[0] == "field" and z[2] == "submission_queue") and not mentions(x, g.prov, lambda z: z[0] == "field" and z[2] == "completion_queue") for x in ent)
+                    cap = nxt_ok and head_ok and le and own
+        ck.ob(rule, "slot-only-when-space", cap, fn=g.path, detail="a slot may be handed out only under (tail + 1) - kernel_head <= submission_queue.ring_entries, computed with wrapping arithmetic, where kernel_head is on every path the head word the KERNEL publishes (a private copy of what was flushed says nothing about what the kernel has consumed)")
         # index formula
         idx_ok = False
         for bb, t in g.cfg.calls(lambda t: (t.get("callee") or "").endswith("::add")):
